@@ -19,7 +19,7 @@ CLAIMED = {
    text="Round-robin pick arithmetic decided for every pool size 1..8 and every counter value below 2^62 by symbolic execution of the real roundRobinLB.Pick; sequential reconfiguration histories (a, b, c loops in 1..4 with Pick in between, balancing mode switched or not): after each phase exactly the configured number of pollers run, surplus ones are closed, every Pick returns a running member, round-robin visits every member.",
    note="openPoll stubbed by a ghost poller that may fail; fastrand arbitrary in range; the concurrent first-use race (two goroutines in the first Pick) is NOT covered: its partial-order exploration does not converge (40 800 events) and is left out", ref="5.19"),
 }
-PO_NOTE = "sequential consistency; buffers summarised on their length counter; kernel (epoll_ctl, close, sendmsg), timers and runner.RunTask replaced by ghost stubs; poller slot recycling stubbed to the token protocol (C10 covers it); bounds (deliveries, closers, task instances, state revisits) in evidence; counterexamples are schedules over real source lines, replayed at the interpreter level only (no native schedule replay)"
+PO_NOTE = "sequential consistency; buffers summarised on their length counter; kernel (epoll_ctl, close, sendmsg), timers and runner.RunTask replaced by ghost stubs; poller slot recycling stubbed to the token protocol (C10 covers it); bounds (deliveries, closers, task instances, state revisits) in evidence; counterexamples are schedules over real source lines; each is re-executed sequentially over one shared heap in the interpreter (independent of the partial-order encoding) and reported only if the assertion fails again; no native schedule replay"
 SEQ_NOTE = "kernel calls replaced by nondeterministic stubs with stated contracts; counterexamples re-executed concretely in the interpreter (stubs cannot be installed in the native build)"
 CLAIMED.update({
  "C05": dict(cat="model_checking", tech="partial-order (event/clock) SMT encoding of per-thread symbolic executions of go/ssa",
